@@ -12,6 +12,7 @@ these theorems (or `C19Tie.skeleton_*`, through which they go) fail.
 -/
 import VaxisModel.Model.DynGenBodies
 import VaxisModel.Lemmas.DynExec
+import VaxisModel.Lemmas.DynExecDraw
 import VaxisModel.Props.C19Tie
 
 namespace VaxisModel.Props.C19Exec
@@ -79,6 +80,59 @@ theorem insert_children_body_eq_model (hs : List Nat) (cfg : Cfg) (s : St) (ah :
 /-- Non-vacuity: three widgets above the top, an upward scroll by seven rows (gap 1, cursor gutter). -/
 example : (runInsert genBodies (builder [2, 1, 3, 1]) ⟨1, true⟩ { init with top := 3, cursor := 3 } [] 7 4).toOption.map
     (fun r => (r.1.top, r.1.offset, r.2.map (fun c => (c.idx, c.row)))) = some (0, -2, [(0, -2), (1, 1), (2, 3)]) := by decide +kernel
+
+theorem le_foldl_max (l : List Nat) : ∀ a : Nat, a ≤ l.foldl max a ∧ ∀ h ∈ l, h ≤ l.foldl max a := by
+  induction l with
+  | nil => intro a; exact ⟨Nat.le_refl _, fun _ h => by cases h⟩
+  | cons x r ih =>
+    intro a
+    obtain ⟨h1, h2⟩ := ih (max a x)
+    refine ⟨by simp only [List.foldl_cons]; omega, fun h hm => ?_⟩
+    simp only [List.foldl_cons]
+    rcases List.mem_cons.mp hm with rfl | hm
+    · omega
+    · exact h2 h hm
+
+/-- **`Draw`, executed from the regenerated bodies of `Draw` and `insertChildren`** — the walk back to an
+    existing top widget, the prologue, the upward scroll through the call `d.insertChildren(ctx, &s, ah)`
+    and the checked `s.Children[len(s.Children)-1]`, the downward loop with its `break`s and `continue`,
+    `totalHeight`, the cursor gutter (both cell loops, the checked `s.Children[idx]`, the replacement
+    `s.Children[idx] = ss`), the wants-cursor block (both `range` loops that move every child), the
+    final re-anchoring `range` loop, `return s, nil` — IS `DynList.draw Facts.fixed`: for EVERY finite
+    builder (fewer than 2^64 items), gap (any `Int`), cursor-gutter setting, state with `top < 2^64`
+    (any cursor, offset, pending scroll, flag), every constraint `W × H`, and every fuel from
+    `drawFuel` on: the same new state and the same children, and a panic exactly when the model panics.
+    So every theorem of `Props/C19.lean` about `DynList.draw` (no panic, layout, anchoring, visibility)
+    is a theorem about the regenerated body of `Draw`, interpreted. -/
+theorem draw_body_eq_model (hs : List Nat) (cfg : Cfg) (s : St) (W H F : Nat)
+    (ht : s.top < 2 ^ 64) (hlen : hs.length < 2 ^ 64) (hF : drawFuel hs s H ≤ F) :
+    runDraw genBodies (builder hs) cfg s W H F =
+      (match draw Facts.fixed cfg hs s W H with
+       | .ok r => .ok r
+       | .error _ => .error .panic) := by
+  rw [gen_bodies_parsed]
+  unfold drawFuel at hF
+  have hm := le_foldl_max hs 0
+  exact Lemmas.DynExec.draw_exec hs cfg s W H F ht hlen (by omega) (by omega)
+    (fun h hh => by have := hm.2 h hh; omega)
+
+/-- With `dyn_repairs_present` (`genFacts = Facts.fixed`): the model function the driver runs and the
+    theorems of `Props/C19.lean` quantify over (`DynList.draw DynList.genFacts`) is that function. -/
+theorem draw_body_eq_model_gen (hs : List Nat) (cfg : Cfg) (s : St) (W H : Nat)
+    (ht : s.top < 2 ^ 64) (hlen : hs.length < 2 ^ 64) :
+    runDraw genBodies (builder hs) cfg s W H (drawFuel hs s H) =
+      (match draw DynList.genFacts cfg hs s W H with
+       | .ok r => .ok r
+       | .error _ => .error .panic) := by
+  have : DynList.genFacts = Facts.fixed := by decide
+  rw [this]
+  exact draw_body_eq_model hs cfg s W H _ ht hlen (Nat.le_refl _)
+
+/-- Non-vacuity: a draw with an upward scroll pending, gap 1, the cursor gutter and the wants-cursor
+    block, run from the regenerated bodies. -/
+example : (runDraw genBodies (builder [3, 1, 2, 4, 1]) ⟨1, true⟩ { cursor := 3, top := 1, offset := 1, pending := -3, wantsCursor := true } 10 4 20).toOption.map
+    (fun r => (r.1.top, r.1.offset, r.1.wantsCursor, r.2.map (fun c => (c.idx, c.row)))) =
+    some (3, 0, false, [(0, -9), (1, -5), (2, -3), (3, 0)]) := by decide +kernel
 
 /-- Non-vacuity: `k` on the second of three items, run from the regenerated body. -/
 example : (runCaptureEvent genBodies (builder [1, 2, 3]) false (keyEv ["'k'"]) { init with cursor := 1, top := 1 }).toOption.map
